@@ -189,9 +189,10 @@ Section ED.
               (diag (em s) (en s) k) s.
 
   (* the call that adds the last diagonal (_next_fringe() returns False), followed by bounds():
-     one tighten_bounds() of the lower right cell if it is not definitive (its result is returned), then
-     edits(): tighten it fully, back-trace (_best_match(m, n) fills its cost), _cleanup() *)
-  Definition finalize (s : ed X) : ed X * bool :=
+     one tighten_bounds() of the lower right cell if it is not definitive (ret), then - inside the call if ret is
+     False, else in the observer's bounds() - edits(): tighten it fully, back-trace (_best_match(m, n) fills its
+     cost), _cleanup().  If ret is False the call reports whether the final bounds are tighter than the initial ones. *)
+  Definition finalize (initial : zr) (s : ed X) : ed X * bool :=
     let m := em s in
     let n := en s in
     let s1 := add_border (set_d s (Datatypes.S (m + n))) (m + n) in
@@ -207,11 +208,12 @@ Section ED.
               if zdefb (b x2) then
                 let s2 := set_kid s1 (m - 1) (n - 1) x2 in
                 let cl := cell_value s2 m n (fst (b x2)) in
-                (set_done (set_cost s2 m n cl) (ccost cl), ret)
+                (set_done (set_cost s2 m n cl) (ccost cl), ret || tighter (ccost cl, ccost cl) initial)
               else (set_err (set_kid s1 (m - 1) (n - 1) x2), ret)
           end
       end
-    else (set_done s1 (ccost (cell_at (e_cost s1) m n)), false).
+    else (set_done s1 (ccost (cell_at (e_cost s1) m n)),
+          tighter (ccost (cell_at (e_cost s1) m n), ccost (cell_at (e_cost s1) m n)) initial).
 
   (* the `while True` loop of tighten_bounds() while the matrix is being built *)
   Fixpoint ed_loop (fuel : nat) (initial : zr) (s : ed X) : ed X * bool :=
@@ -219,7 +221,7 @@ Section ED.
     | O => (set_err s, false)
     | Datatypes.S f =>
         let k := e_d s in
-        if Nat.leb (em s + en s) k then finalize s
+        if Nat.leb (em s + en s) k then finalize initial s
         else
           let s1 := add_border (set_d s (Datatypes.S k)) k in
           let s2 := if Nat.eqb k 0 then s1 else proc_diag s1 k in
